@@ -1,8 +1,42 @@
 import ApolloModel.Model.Proto
-open Apollo Apollo.Proto
+import ApolloModel.Model.ExecDoc
+import ApolloModel.Model.AstDump
+import Driver.D08
+open Apollo Apollo.Proto Apollo.Ast Apollo.Exec
 namespace Driver
 
+/-! schema tables written by harness/src/p19.rs: `R q m s`, `T name kind nfields (fname defid innerTy)*` (names raw) -/
+
+def optName (t : String) : Option Str := if t == "-" then none else some t.toList
+
+partial def pXFields : Nat → List String → Option (List (Str × XFDef) × List String)
+  | 0, ts => some ([], ts)
+  | n + 1, f :: i :: t :: ts => do
+    let i ← i.toNat?
+    let (r, ts) ← pXFields n ts
+    pure ((f.toList, { id := i, ty := t.toList }) :: r, ts)
+  | _, _ => none
+
+partial def pXSchema (acc : XSchema) : List String → Option XSchema
+  | [] => some acc
+  | "R" :: q :: m :: s :: ts => pXSchema { acc with query := optName q, mutation := optName m, subscription := optName s } ts
+  | "T" :: n :: k :: c :: ts => do
+    let k ← (match k with
+      | "o" => some XKind.object | "i" => some .interface | "u" => some .union
+      | "s" => some .scalar | "e" => some .enum | "n" => some .inputObject | _ => none)
+    let c ← c.toNat?
+    let (fs, ts) ← pXFields c ts
+    pXSchema { acc with types := acc.types ++ [{ name := n.toList, kind := k, fields := fs }] } ts
+  | _ => none
+
 /-- streams of property C19 are named `c19.<name>` -/
-def c19 (_stream : String) (_fs : List String) : String := "unknown-stream"
+def c19 (stream : String) (fs : List String) : String :=
+  match stream, fs with
+  | "c19.toast", [schema, src] =>
+    let toks := ((String.ofList (decodeField schema)).splitOn " ").filter (· ≠ "")
+    match pXSchema { types := [], query := none, mutation := none, subscription := none } toks, parseSource (decodeField src) with
+    | some s, some ast => dDocument (toAst (fromDoc s ast))
+    | _, _ => "bad-case"
+  | _, _ => "unknown-stream"
 
 end Driver
